@@ -481,6 +481,9 @@ func (p *Profile) genRaw(rng *rand.Rand, tr *Trace, wtFiles, tracked, branches [
 		}
 	}
 	n := rng.Intn(4)
+	if refCmd && rng.Intn(2) == 0 {
+		n = 1 // one positional argument next to whatever flags were drawn: `switch -c new existing`, `branch -d a b`
+	}
 	for i := 0; i < n; i++ {
 		argv = append(argv, argPool())
 	}
